@@ -123,7 +123,15 @@ class BaseCtx(object):
             return ("NOTIF", f.body[0], f.body[1])
         return rp.TYPE_NAMES[f.type]
 
+    escape_is_violation = True
+
     def check_escapes(self, escapes, cell):
+        if escapes and not self.escape_is_violation:
+            # an exception / endless loop / exit escaping from the agent is C10's (and C01's, C04's)
+            # subject; here the run simply cannot be judged any further
+            self.done = True
+            self.stats["run_ended_by_escape(not judged here)"] += 1
+            return
         if escapes:
             e = escapes[0]
             what = {"exc": "exception", "budget": "step-budget", "exit": "SystemExit"}[e[0]]
